@@ -245,13 +245,17 @@ def reread_closure(a: int, b: int, c: int, quoted: bool) -> bool:
     return got == ver and raw["commit"] is True
 
 
-def merge_file_patterns(same_path: bool, n2: int) -> bool:
-    """repeated file entries (a glob and a literal naming the same file) are merged: every pattern of every entry is kept
-    pre: 1 <= n2 <= 2
+SPELLINGS = ["a.txt", "./a.txt", "a.*", ".//a.txt"]
+
+
+def merge_file_patterns(same_path: bool, n2: int, sp1: int, sp2: int) -> bool:
+    """repeated file entries (a glob, a literal, a non-canonical spelling such as ./a.txt naming the same file) are merged into one
+    entry: every pattern of every entry is kept and the file is rewritten once
+    pre: 1 <= n2 <= 2 and 0 <= sp1 <= 3 and 0 <= sp2 <= 3 and sp1 != sp2
     post: _
     """
     raw = {"version_pattern": "MAJOR.MINOR.PATCH",
-           "file_patterns": {"a.txt": ["{version}"], ("a.*" if same_path else "b.txt"): ["v{version}", "{pep440_version}"][:n2]}}
+           "file_patterns": {SPELLINGS[sp1]: ["{version}"], (SPELLINGS[sp2] if same_path else "b.txt"): ["v{version}", "{pep440_version}"][:n2]}}
     fs = MemFS({"a.txt": "", "b.txt": ""})
     saved = config.pl
     config.pl = NS(Path=fs.Path)
